@@ -22,7 +22,7 @@ inductive Decl
   | rule (name : String) (ents : List String) (nested : Decl) (consts : List ConstDeclS) (locals : List Local) (body : Stmt)
       (dom : List DomRule)
   | nil | cons (d t : Decl)
-  deriving Repr, Inhabited
+  deriving DecidableEq, Repr, Inhabited
 
 def paramsToks (ps : List Param) : List DTok := if ps = [] then [] else [.sym "("] ++ argsToks ps ++ [.sym ")"]
 
@@ -50,6 +50,7 @@ structure SchemaS where
   name : String
   consts : List ConstDeclS
   decls : Decl
+  deriving DecidableEq, Repr
 
 /-- `SCHEMAout` after its header comment -/
 def schemaToks (s : SchemaS) : List DTok :=
